@@ -8,6 +8,13 @@ package main
 // occurring universal hypothesis is additionally instantiated at those skolem constants.
 // Both steps are validity preserving: instances are consequences of the hypotheses.
 
+import (
+	"fmt"
+	"os"
+)
+
+var debugInst bool
+
 func hasQuant(t *Term) bool { return t.qd > 0 }
 
 // skolemize replaces positive foralls / negative exists of the goal by fresh constants.
@@ -51,7 +58,7 @@ func skolemize(t *Term, pos bool, sk *[]*Term) *Term {
 
 // instantiate returns t with every positive closed forall replaced by the conjunction of its
 // instances at the given constants (nil when nothing was instantiated).
-func instantiate(t *Term, pos bool, consts []*Term, budget *int) *Term {
+func instantiate(t *Term, pos bool, consts []*Term, budget *int, refs map[int]bool) *Term {
 	if !hasQuant(t) || *budget <= 0 {
 		return t
 	}
@@ -59,7 +66,7 @@ func instantiate(t *Term, pos bool, consts []*Term, budget *int) *Term {
 	case t.kind == 'q':
 		if t.op == "exists" && !pos && !t.open {
 			// under a negation an existential is a universal fact: offer the disjunction of instances
-			d := instantiate(TS.mk('q', "forall", SBool, []*Term{Not(t.args[0])}, t.bvars, nil), true, consts, budget)
+			d := instantiate(TS.mk('q', "forall", SBool, []*Term{Not(t.args[0])}, t.bvars, nil), true, consts, budget, refs)
 			if d.kind == 'q' {
 				return t
 			}
@@ -71,7 +78,7 @@ func instantiate(t *Term, pos bool, consts []*Term, budget *int) *Term {
 			for _, v := range t.bvars {
 				var c []*Term
 				for _, k := range consts {
-					if k.sort == v.sort {
+					if k.sort == v.sort && (v.sort != SInt || isRefVar(v) == (refs[k.id] || isRefVar(k))) {
 						c = append(c, k)
 					}
 				}
@@ -100,7 +107,7 @@ func instantiate(t *Term, pos bool, consts []*Term, budget *int) *Term {
 				for i, v := range t.bvars {
 					m[v.id] = cands[i][idx[i]]
 				}
-				insts = append(insts, instantiate(Subst(t.args[0], m), pos, consts, budget))
+				insts = append(insts, instantiate(Subst(t.args[0], m), pos, consts, budget, refs))
 				*budget--
 				k := 0
 				for k < len(idx) {
@@ -121,22 +128,22 @@ func instantiate(t *Term, pos bool, consts []*Term, budget *int) *Term {
 	case t.kind == 'a' && (t.op == "and" || t.op == "or"):
 		args := make([]*Term, len(t.args))
 		for i, a := range t.args {
-			args[i] = instantiate(a, pos, consts, budget)
+			args[i] = instantiate(a, pos, consts, budget, refs)
 		}
 		if t.op == "and" {
 			return And(args...)
 		}
 		return Or(args...)
 	case t.kind == 'a' && t.op == "not":
-		return Not(instantiate(t.args[0], !pos, consts, budget))
+		return Not(instantiate(t.args[0], !pos, consts, budget, refs))
 	case t.kind == 'a' && t.op == "=" && t.args[0].sort == SBool:
 		// a <=> b: both directions, each with its own polarity
 		a, b := t.args[0], t.args[1]
-		return instantiate(And(Implies(a, b), Implies(b, a)), pos, consts, budget)
+		return instantiate(And(Implies(a, b), Implies(b, a)), pos, consts, budget, refs)
 	case t.kind == 'a' && t.op == "=>":
-		return Implies(instantiate(t.args[0], !pos, consts, budget), instantiate(t.args[1], pos, consts, budget))
+		return Implies(instantiate(t.args[0], !pos, consts, budget, refs), instantiate(t.args[1], pos, consts, budget, refs))
 	case t.kind == 'a' && t.op == "ite" && t.sort == SBool && !hasQuant(t.args[0]):
-		return Ite(t.args[0], instantiate(t.args[1], pos, consts, budget), instantiate(t.args[2], pos, consts, budget))
+		return Ite(t.args[0], instantiate(t.args[1], pos, consts, budget, refs), instantiate(t.args[2], pos, consts, budget, refs))
 	}
 	return t
 }
@@ -221,7 +228,7 @@ func frameConsts(t *Term) []*Term {
 }
 
 // prepareQuery skolemises the goal and returns extra hypothesis instances.
-func prepareQuery(pc, goal *Term, hints []*Term) (newGoal *Term, newPC *Term, extra *Term) {
+func prepareQuery(pc, goal *Term, hints []*Term, refHints []*Term) (newGoal *Term, newPC *Term, extra *Term) {
 	var sk []*Term
 	// antecedents of the goal are hypotheses (so that they get instantiated as well)
 	for goal.kind == 'a' && goal.op == "=>" {
@@ -248,7 +255,7 @@ func prepareQuery(pc, goal *Term, hints []*Term) (newGoal *Term, newPC *Term, ex
 	if len(hsk) <= 8 {
 		sk = append(sk, hsk...)
 	}
-	if len(sk) == 0 && len(hints) == 0 {
+	if len(sk) == 0 && len(hints) == 0 && len(refHints) == 0 {
 		return g, pc, True
 	}
 	// candidate constants in priority order: skolems of the goal and the hypotheses, index sums
@@ -268,6 +275,42 @@ func prepareQuery(pc, goal *Term, hints []*Term) (newGoal *Term, newPC *Term, ex
 		if !seen[h.id] && len(consts) < 16 {
 			seen[h.id] = true
 			consts = append(consts, h)
+		}
+	}
+	// a counter that was just stepped (i+1, j-1): the value it had during the iteration is needed as well
+	for _, h := range hints {
+		if h.kind == 'a' && (h.op == "+" || h.op == "-") && len(h.args) == 2 {
+			for _, a := range h.args {
+				if a.kind == 'v' && a.sort == SInt && !seen[a.id] && len(consts) < 20 {
+					seen[a.id] = true
+					consts = append(consts, a)
+				}
+			}
+		}
+	}
+	refs := map[int]bool{}
+	if len(refHints) > 0 {
+		// walks over linked nodes index their level / pointer arrays at constant positions
+		if z := IntLit(0); !seen[z.id] {
+			seen[z.id] = true
+			consts = append(consts, z)
+		}
+	}
+	for _, h := range refHints {
+		refs[h.id] = true
+		if !seen[h.id] {
+			seen[h.id] = true
+			consts = append(consts, h)
+		}
+	}
+	for _, c := range sk {
+		if len(c.op) > 8 && c.op[:8] == "frame_r!" {
+			refs[c.id] = true
+		}
+	}
+	if debugInst {
+		for _, c := range consts {
+			fmt.Fprintf(os.Stderr, "  inst const ref=%v %s\n", refs[c.id] || isRefVar(c), debugTerm(c, 4))
 		}
 	}
 	ngoal := len(sk) - len(hsk)
@@ -299,8 +342,11 @@ func prepareQuery(pc, goal *Term, hints []*Term) (newGoal *Term, newPC *Term, ex
 					b = budget
 				}
 				b0 := b
-				i := instantiate(c, true, consts, &b)
+				i := instantiate(c, true, consts, &b, refs)
 				budget -= b0 - b
+				if debugInst {
+					fmt.Fprintf(os.Stderr, "  inst hyp used=%d changed=%v %s\n", b0-b, i != c, debugTerm(c, 5))
+				}
 				if i != c {
 					insts = append(insts, i)
 				}
@@ -309,7 +355,7 @@ func prepareQuery(pc, goal *Term, hints []*Term) (newGoal *Term, newPC *Term, ex
 		// the negated goal is a hypothesis of the refutation as well: an existential goal becomes
 		// a universal fact there, and needs the same instances (witness candidates)
 		if hasQuant(ng) {
-			i := instantiate(ng, true, consts, &budget)
+			i := instantiate(ng, true, consts, &budget, refs)
 			if i != ng {
 				insts = append(insts, i)
 			}
@@ -328,4 +374,14 @@ func prepareQuery(pc, goal *Term, hints []*Term) (newGoal *Term, newPC *Term, ex
 		consts = nsk
 	}
 	return g, pc, And(parts...)
+}
+
+// isRefVar: bound variables of pointer / map type are named ref$..., and so are their skolem constants.
+func isRefVar(t *Term) bool {
+	for i := 0; i+4 <= len(t.op); i++ {
+		if t.op[i:i+4] == "ref$" || t.op[i:i+4] == "ref_" {
+			return true
+		}
+	}
+	return false
 }
